@@ -45,6 +45,17 @@ type Config struct {
 	Extra func(m *Merged, cov map[string]interface{})
 	// Pre is called in the parent before workers start (e.g. build a CLI binary); returns env additions.
 	Pre func(tier string) ([]string, error)
+	// Modes: optional; each mode gets its own set of workers (possibly another build of the same harness,
+	// e.g. the -race build). Ctx.Mode tells Run which spaces to enumerate.
+	Modes []Mode
+}
+
+// Mode is one build/run variant of a harness.
+type Mode struct {
+	Name         string
+	BinarySuffix string   // appended to os.Args[0]
+	Env          []string // extra environment; the token {W} is replaced by a per-worker scratch prefix
+	Workers      int      // 0 = default
 }
 
 // Violation is one observed disagreement with the property.
@@ -96,6 +107,7 @@ type Ctx struct {
 	ReplayIdx int64 // >=0: evaluate only this index (of ReplaySpace)
 	ReplaySpc string
 	Verbose   bool
+	Mode      string
 
 	space    string
 	cur      *spaceStat
@@ -165,6 +177,17 @@ func (c *Ctx) Expired() bool {
 	}
 	return c.out.Expired
 }
+
+// Deadline is the internal deadline of this worker.
+func (c *Ctx) Deadline() time.Time {
+	if c.ReplayIdx >= 0 {
+		return time.Now().Add(1000 * time.Hour)
+	}
+	return c.deadline
+}
+
+// MarkIncomplete records that the current space was not explored completely (a cap or deadline was hit).
+func (c *Ctx) MarkIncomplete() { c.out.Expired = true }
 
 // Done records one evaluated case.
 func (c *Ctx) Done(nontrivial bool, calls int) {
@@ -327,6 +350,7 @@ func Main(cfg Config) {
 		seedF     = flag.Int64("seed", -1, "seed")
 		budget    = flag.Duration("budget", 0, "internal deadline override")
 		verbose   = flag.Bool("v", false, "verbose")
+		mode      = flag.String("mode", "", "internal")
 	)
 	flag.Parse()
 	if *tier == "" {
@@ -364,7 +388,7 @@ func Main(cfg Config) {
 	}
 
 	if *worker >= 0 {
-		runWorker(cfg, *tier, seed, *worker, *nworkers, *out, *replayIdx, *replaySpc, bud, *verbose)
+		runWorker(cfg, *tier, seed, *worker, *nworkers, *out, *replayIdx, *replaySpc, bud, *verbose, *mode)
 		return
 	}
 	if *replay != "" {
@@ -373,8 +397,8 @@ func Main(cfg Config) {
 	os.Exit(runParent(cfg, *tier, seed, bud))
 }
 
-func runWorker(cfg Config, tier string, seed int64, w, n int, out string, ridx int64, rspc string, bud time.Duration, verbose bool) {
-	c := &Ctx{Prop: cfg.Property, Tier: tier, Seed: seed, Worker: w, NWorkers: n, ReplayIdx: ridx, ReplaySpc: rspc, Verbose: verbose,
+func runWorker(cfg Config, tier string, seed int64, w, n int, out string, ridx int64, rspc string, bud time.Duration, verbose bool, mode string) {
+	c := &Ctx{Mode: mode, Prop: cfg.Property, Tier: tier, Seed: seed, Worker: w, NWorkers: n, ReplayIdx: ridx, ReplaySpc: rspc, Verbose: verbose,
 		states: map[string]struct{}{}, deadline: time.Now().Add(bud)}
 	c.out = workerOut{Spaces: map[string]*spaceStat{}, Outcomes: map[string]int64{}, Viol: map[string]*violGroup{}, Counters: map[string]int64{}}
 	c.Space("default")
@@ -413,7 +437,7 @@ func scratchBase() string {
 	return p
 }
 
-func spawn(cfg Config, tier string, seed int64, w, n int, outFile string, ridx int64, rspc string, bud time.Duration, env []string, verbose bool) (string, error) {
+func spawn(cfg Config, md Mode, tier string, seed int64, w, n int, outFile string, ridx int64, rspc string, bud time.Duration, env []string, verbose bool) (string, error) {
 	args := []string{"-worker", strconv.Itoa(w), "-n", strconv.Itoa(n), "-tier", tier, "-seed", strconv.FormatInt(seed, 10), "-out", outFile,
 		"-budget", bud.String()}
 	if ridx >= 0 {
@@ -422,13 +446,19 @@ func spawn(cfg Config, tier string, seed int64, w, n int, outFile string, ridx i
 	if verbose {
 		args = append(args, "-v")
 	}
-	cmd := exec.Command(os.Args[0], args...)
+	if md.Name != "" {
+		args = append(args, "-mode", md.Name)
+	}
+	cmd := exec.Command(os.Args[0]+md.BinarySuffix, args...)
 	gmp := cfg.WorkerGOMAXPROCS
 	if gmp == 0 {
 		gmp = 1
 	}
 	cmd.Env = append(os.Environ(), "GOMAXPROCS="+strconv.Itoa(gmp), "GOTRACEBACK=all")
 	cmd.Env = append(cmd.Env, env...)
+	for _, e := range md.Env {
+		cmd.Env = append(cmd.Env, strings.ReplaceAll(e, "{W}", outFile))
+	}
 	var errb strings.Builder
 	cmd.Stderr = &tailWriter{b: &errb, max: 16000}
 	if verbose {
@@ -489,13 +519,34 @@ func runParent(cfg Config, tier string, seed int64, bud time.Duration) int {
 		stderr string
 		err    error
 	}
-	ch := make(chan res, n)
-	for w := 0; w < n; w++ {
-		go func(w int) {
-			se, err := spawn(cfg, tier, seed, w, n, filepath.Join(tmp, fmt.Sprintf("w%d.json", w)), -1, "", bud, env, false)
-			ch <- res{w, se, err}
-		}(w)
+	modes := cfg.Modes
+	if len(modes) == 0 {
+		modes = []Mode{{}}
 	}
+	total := 0
+	for _, md := range modes {
+		k := n
+		if md.Workers > 0 && md.Workers < k {
+			k = md.Workers
+		}
+		total += k
+	}
+	ch := make(chan res, total)
+	id := 0
+	for _, md := range modes {
+		k := n
+		if md.Workers > 0 && md.Workers < k {
+			k = md.Workers
+		}
+		for w := 0; w < k; w++ {
+			go func(md Mode, w, k, id int) {
+				se, err := spawn(cfg, md, tier, seed, w, k, filepath.Join(tmp, fmt.Sprintf("w%d.json", id)), -1, "", bud, env, false)
+				ch <- res{id, se, err}
+			}(md, w, k, id)
+			id++
+		}
+	}
+	n = total
 	m := &Merged{Spaces: map[string]*spaceStat{}, Outcomes: map[string]int64{}, States: map[string]struct{}{}, Viol: map[string]*violGroup{}, Counters: map[string]int64{}}
 	harnessErr := false
 	for i := 0; i < n; i++ {
@@ -728,7 +779,7 @@ func confirm(cfg Config, tier string, seed int64, v Violation, env []string) (bo
 	n := 0
 	for i := 0; i < 5; i++ {
 		of := filepath.Join(tmp, fmt.Sprintf("r%d.json", i))
-		_, err := spawn(cfg, tier, seed, 0, 1, of, v.Idx, v.Space, time.Hour, env, false)
+		_, err := spawn(cfg, modeOf(cfg, v.Space), tier, seed, 0, 1, of, v.Idx, v.Space, time.Hour, env, false)
 		if err != nil {
 			// crash during replay counts as reproduction of a crash-type violation only
 			continue
@@ -778,7 +829,7 @@ func runReplay(cfg Config, path string) int {
 	defer os.RemoveAll(tmp)
 	env = append(env, "VERIF_SCRATCH="+tmp)
 	of := filepath.Join(tmp, "r.json")
-	se, err := spawn(cfg, r.Tier, r.Seed, 0, 1, of, r.Index, r.Space, time.Hour, env, true)
+	se, err := spawn(cfg, modeOf(cfg, r.Space), r.Tier, r.Seed, 0, 1, of, r.Index, r.Space, time.Hour, env, true)
 	if err != nil {
 		fmt.Println("replay worker died:", err)
 		fmt.Println(se)
@@ -794,6 +845,19 @@ func runReplay(cfg Config, path string) int {
 	}
 	fmt.Println("replay: no violation for", r.Space, r.Index)
 	return 0
+}
+
+// modeOf finds the mode a space belongs to: by convention spaces of a mode are named "<mode>:...".
+func modeOf(cfg Config, space string) Mode {
+	for _, md := range cfg.Modes {
+		if md.Name != "" && strings.HasPrefix(space, md.Name+":") {
+			return md
+		}
+	}
+	if len(cfg.Modes) > 0 {
+		return cfg.Modes[0]
+	}
+	return Mode{}
 }
 
 func sanitize(s string) string {
